@@ -89,6 +89,10 @@ theorem oqi_createTask (s : Stack) (k : TaskKind) (h : isOfferK k = false) : oqi
 @[simp] theorem oqi_with_findLog (s : Stack) (x : List (Nat × Nat)) : oqi { s with findLog := x } = oqi s := rfl
 @[simp] theorem oqi_with_findMarks (s : Stack) (x : List (Nat × Nat)) : oqi { s with findMarks := x } = oqi s := rfl
 @[simp] theorem oqi_with_ansLog (s : Stack) (x : List (Nat × Addr × Nat × Nat)) : oqi { s with ansLog := x } = oqi s := rfl
+@[simp] theorem oqi_with_lisLog (s : Stack) (x : List (LId × Bool × SvcKey × Addr)) : oqi { s with lisLog := x } = oqi s := rfl
+@[simp] theorem oqi_logLis (s : Stack) (id : LId) (o : Bool) (k : SvcKey) (a : Addr) : oqi (s.logLis id o k a) = oqi s := rfl
+@[simp] theorem oqi_with_lisDup (s : Stack) (x : Bool) : oqi { s with lisDup := x } = oqi s := rfl
+@[simp] theorem oqi_markDup (s : Stack) (d : Bool) : oqi (s.markDup d) = oqi s := rfl
 @[simp] theorem oqi_logAnswer (s : Stack) (i : Nat) (a : Addr) (d : Nat) : oqi (s.logAnswer i a d) = oqi s := rfl
 @[simp] theorem oqi_markFind (s : Stack) (n : Nat) : oqi (s.markFind n) = oqi s := rfl
 @[simp] theorem oqi_with_offLog (s : Stack) (x : List (Nat × OEv × Nat)) : oqi { s with offLog := x } = oqi s := rfl
@@ -271,13 +275,13 @@ theorem oqi_stepFind (s : Stack) (tid : Tid) (t : TaskSt) (h : isOfferK tid.1 = 
   rw [foldl_pres oqi _ (fun s p => by frame_cases)]
 
 @[simp] theorem oqi_watchService (s : Stack) (f : Service) (l : Listener) : oqi (s.watchService f l) = oqi s := by
-  unfold watchService; simp only []; rw [oqi_replay]; rfl
+  unfold watchService; simp only []; rw [oqi_markDup, oqi_replay]; rfl
 @[simp] theorem oqi_stopWatchService (s : Stack) (f : Service) (l : Listener) : oqi (s.stopWatchService f l) = oqi s := by
   unfold stopWatchService; simp only []; split
   · simp
   · rw [oqi_replay]; rfl
 @[simp] theorem oqi_watchAllServices (s : Stack) (id : LId) : oqi (s.watchAllServices id) = oqi s := by
-  unfold watchAllServices; rw [oqi_replay]; rfl
+  unfold watchAllServices; rw [oqi_markDup, oqi_replay]; rfl
 @[simp] theorem oqi_stopWatchAllServices (s : Stack) (id : LId) : oqi (s.stopWatchAllServices id) = oqi s := by
   unfold stopWatchAllServices; split
   · simp
